@@ -120,7 +120,8 @@ where
         let t = if s == F::infinity() {
             F::one()
         } else if s != F::one() {
-            (n.powf(F::one() - s) - s) * q
+            // (n^(1-s) - s) / (1 - s) = 1 + (n^(1-s) - 1) / (1 - s), without cancellation for s near 1
+            F::one() + ((F::one() - s) * n.ln()).exp_m1() * q
         } else {
             F::one() + n.ln()
         };
@@ -136,7 +137,8 @@ where
         if pt <= one {
             pt
         } else if self.s != one {
-            (pt * (one - self.s) + self.s).powf(self.q)
+            // (pt (1-s) + s)^q = (1 + (pt - 1)(1-s))^q, without cancellation for s near 1
+            (((pt - one) * (one - self.s)).ln_1p() * self.q).exp()
         } else {
             (pt - one).exp()
         }
